@@ -195,6 +195,9 @@ namespace chaiscript {
         return true;
       }
 
+      // a file shorter than the BOM makes the read above fail: clear the stream state, or the
+      // seek is a no-op and the content is never read
+      infile.clear();
       infile.seekg(0);
 
       return false;
